@@ -76,6 +76,11 @@ def doc(c, indent, what):
         return ""
     if c["doc"] == "all":
         return f"{indent}/// The {what}\n"
+    hostile = 'glob src/**/*.rs closes */ opens /* quotes """ and ends with a backslash \\'
+    if c["doc"] == "hostile":
+        return f"{indent}/// The {what}: {hostile}\n"
+    if c["doc"] == "hostile_multi":
+        return f"{indent}/// The {what}: first line\n{indent}/// {hostile}\n{indent}/// third line\n"
     return f"{indent}/// The {what}: first line\n{indent}///\n{indent}/// third line, with `code` and \"quotes\"\n"
 
 
